@@ -311,21 +311,40 @@ func hostileTarget(name string) any {
 		x, y := &cycT{}, &cycT{}
 		x.Any, y.Any = y, x
 		return x
+	case "typed-nil-in-fields":
+		// interfaces that hold nil pointers (nothing to decode into: a pointer held by an interface is
+		// only reused when it is not nil)
+		return &cycT{Next: (*cycT)(nil), Any: (*int)(nil), Kids: []nextI{(*cycT)(nil), nil}}
+	case "typed-nil-in-any":
+		var a any = (*cycT)(nil)
+		return &a
+	case "typed-nil-slice-elems":
+		s := make([]any, 2, 4)
+		s[0], s[1] = (*int)(nil), (*cycT)(nil)
+		s = append(s, (*[]int)(nil))[:2]
+		return &s
+	case "typed-nil-map-values":
+		return &map[string]any{"a": (*int)(nil), "Next": (*cycT)(nil), "Any": (*map[string]any)(nil)}
+	case "typed-nil-array-elems":
+		return &[3]any{(*int)(nil), (*cycT)(nil), (**int)(nil)}
 	}
 	return nil
 }
 
-var hostileTargets = []string{"cyclic-iface-target", "cyclic-any-target", "cyclic-kids-target"}
+var hostileTargets = []string{"cyclic-iface-target", "cyclic-any-target", "cyclic-kids-target", "typed-nil-in-fields", "typed-nil-in-any", "typed-nil-slice-elems", "typed-nil-map-values", "typed-nil-array-elems"}
 
-// cyclicTargets: decode targets whose interfaces and pointers form cycles of one, two or three hops.
-var cyclicTargets = []string{"cyclic-iface-target", "cyclic-any-target", "cyclic-kids-target", "iface-ptr-two-hops", "iface-ptrptr-cycle", "iface-ptr-three-hops", "struct-any-two-hops"}
+// cyclicTargets: decode targets whose interfaces and pointers form cycles of one, two or three hops, or whose interfaces
+// (fields, slice / array elements within and beyond the length, map values) hold typed nil pointers.
+var cyclicTargets = []string{"cyclic-iface-target", "cyclic-any-target", "cyclic-kids-target", "iface-ptr-two-hops", "iface-ptrptr-cycle", "iface-ptr-three-hops", "struct-any-two-hops",
+	"typed-nil-in-fields", "typed-nil-in-any", "typed-nil-slice-elems", "typed-nil-map-values", "typed-nil-array-elems"}
 
 // TestCyclicTargets: ordinary documents decoded into self-referential targets (every call must return).
 func TestCyclicTargets(t *testing.T) {
 	if evid.Shard() != 1%evid.NShards() {
 		return
 	}
-	docs := []string{`1`, `"s"`, `null`, `true`, `{}`, `[]`, `{"Next":{"Next":1}}`, `{"Any":{"Any":[1,{"Any":null}]}}`, `[[1]]`, `{"Kids":[{"Kids":[null]}],"Next":null}`, `{"a":1}`, `[1,2`, ``}
+	docs := []string{`1`, `"s"`, `null`, `true`, `{}`, `[]`, `{"Next":{"Next":1}}`, `{"Any":{"Any":[1,{"Any":null}]}}`, `[[1]]`, `{"Kids":[{"Kids":[null]}],"Next":null}`, `{"a":1}`, `[1,2`, ``,
+		`[1,{"Next":null},[2],"x"]`, `{"a":2,"Next":{"Any":1},"Any":{"k":[1]}}`, `{"Kids":[{"Any":1},{"Next":{}},3]}`, `[null,null,null]`}
 	n := 0
 	for _, ht := range cyclicTargets {
 		for _, doc := range docs {
